@@ -288,6 +288,31 @@ def check_exprkind(run, filesets, info, tag):
         run.cov["traces_validated_against_impl"] += 1
         run.count(("exprfacts", tuple(filesets[i])), True, "expr-facts:" + tag)
         nlate = sum(1 for e in r["before"] if e.startswith("LB,"))
+        # the shape C06_expression_resolution_by_unit speaks about: units  EN (LB | AS LB* AE)* EX, nothing outside them
+        st = 0        # 0 outside a unit, 1 inside a unit, 2 inside an assignment
+        shape = None
+        for e in evs:
+            k = e.split(",")[0]
+            if (k, st) == ("EN", 0):
+                st = 1
+            elif (k, st) == ("EX", 1):
+                st = 0
+            elif (k, st) == ("AS", 1):
+                st = 2
+            elif (k, st) == ("AE", 2):
+                st = 1
+            elif k == "LB" and st in (1, 2):
+                pass
+            else:
+                shape = "event %r in state %d" % (e[:30], st)
+                break
+        if shape is None and st != 0:
+            shape = "the stream ends inside a unit"
+        if shape is not None:
+            bad += 1
+            run.violation("correspondence", "the events of the expression resolver are not a sequence of units with closed assignments (%s): %s" % (
+                shape, text[:200].replace("\n", " ")), rep, no_input=True)
+            continue
         if "after" not in r:
             codes = sorted(set(d["code"] for d in r.get("diags", [])))
             if m[0] == "error" and codes == ["P9999"]:
